@@ -137,7 +137,19 @@ fn reuse(ctx: &mut Ctx) {
                 Err(_) => { ctx.rng.next(); ctx.count("gen.failed"); None }
             }
         };
-        let Some(target) = mk(ctx, false) else { continue };
+        // half of the time target and history share ONE world (same contracts, different contract-input sets / orders):
+        // anything initialisation accumulates instead of assigning (allowed contracts, input->output index map) shows up
+        let shared: Vec<g::Case> = if ctx.rng.chance(1, 2) {
+            let mut knobs = g::Knobs::normal(); knobs.fault_pm = 0; knobs.unlisted_pm = 500; knobs.code_ops = true; knobs.max_blocks = 6;
+            let k = ctx.rng.range(2, 4) as usize;
+            let seed = ctx.rng.0;
+            match ctx.guard(|| { let mut r = crate::ctx::Rng(seed); let c = g::gen_world_cases(&mut r, knobs, 60_000, k); (c, r) }) {
+                Ok((c, r)) => { ctx.rng = r; c }
+                Err(_) => { ctx.rng.next(); vec![] }
+            }
+        } else { vec![] };
+        let (target, shared_hist) = if shared.len() >= 2 { let mut s = shared; let t = s.pop().unwrap(); (t, s) } else {
+            let Some(t) = mk(ctx, false) else { continue }; (t, vec![]) };
         let tag = format!("reuse#{i}");
         // fresh, twice (determinism)
         let mut f1 = target.fresh_vm();
@@ -149,6 +161,7 @@ fn reuse(ctx: &mut Ctx) {
         let hist_len = ctx.rng.range(1, 4);
         let mut vm = target.fresh_vm();
         let mut kinds = vec![];
+        for h in &shared_hist { let _ = ctx.guard(|| run_on(&mut vm, h)); kinds.push("same-world-other-inputs"); }
         for _ in 0..hist_len {
             let unl = ctx.rng.chance(1, 3);
             let Some(h) = mk(ctx, unl) else { continue };
